@@ -32,12 +32,17 @@ type stage struct {
 	pre     bool
 	sigs    []sig
 	mailmap *string
+	extra   []cextra // round 4: committers and times (nil: committer = author)
 }
 
 func (s *stage) sx() Sx {
 	cs := make([]Sx, len(s.sigs))
 	for i, g := range s.sigs {
 		cs[i] = L(str(g.name), str(g.email))
+		if s.extra != nil {
+			x := s.extra[i]
+			cs[i] = L(str(g.name), str(g.email), str(x.cname), str(x.cemail), I64(x.aw), I64(x.cw))
+		}
 	}
 	f := []Sx{B(s.exact), B(s.init), I(s.how), B(s.pre), T("cs", cs...)}
 	if s.mailmap != nil {
@@ -54,6 +59,12 @@ func parseStage(x Sx) *stage {
 		case "cs":
 			for _, g := range f.Args() {
 				s.sigs = append(s.sigs, sig{unstr(g.List[0]), unstr(g.List[1])})
+				if len(g.List) >= 6 {
+					s.extra = append(s.extra, cextra{unstr(g.List[2]), unstr(g.List[3]), int64(g.List[4].Int()), int64(g.List[5].Int())})
+				}
+			}
+			if len(s.extra) != 0 && len(s.extra) != len(s.sigs) {
+				panic("replay: commits with and without committer in one stage")
 			}
 		case "mailmap":
 			t := unstr(f.Args()[0])
@@ -97,7 +108,7 @@ func runSeq(stages []*stage) Sx {
 	helds := make([]held, len(stages))
 	var obs []Sx
 	for i, s := range stages {
-		g := &gcase{exact: s.exact, sigs: s.sigs, mailmap: s.mailmap}
+		g := &gcase{exact: s.exact, sigs: s.sigs, mailmap: s.mailmap, extra: s.extra}
 		var fields []Sx
 		lt := &lowerTable{}
 		for _, x := range s.sigs {
